@@ -96,7 +96,14 @@ def probe(runner):
             if st3 == 207:
                 ms3 = impl.parse_multistatus(b3)
                 rp = next((v["D:getetag"][1].text for v in ms3.values() if isinstance(v, dict) and "D:getetag" in v), None)
-            out["four"] = (put_etag, get_etag if st == 200 else "n/a", pf if st2 == 207 else "n/a", rp if st3 == 207 else "n/a")
+            # the same resource through other negotiated representations / methods: the ETag a client may later send
+            # in If-Match must not depend on them
+            alts = []
+            for meth, extra in (("GET", dict(HTTP_ACCEPT_ENCODING="gzip")), ("HEAD", {}), ("HEAD", dict(HTTP_ACCEPT_ENCODING="gzip, deflate")),
+                                ("GET", dict(HTTP_ACCEPT="text/calendar, text/vcard, */*;q=0.1", HTTP_USER_AGENT="x", HTTP_DEPTH="0"))):
+                sta, ha, _ = srv.request(meth, path, login=login, **extra)
+                alts.append(ha.get("ETag") if sta == 200 else "n/a")
+            out["four"] = (put_etag, get_etag if st == 200 else "n/a", pf if st2 == 207 else "n/a", rp if st3 == 207 else "n/a") + tuple(alts)
         return out
     return f
 
@@ -118,7 +125,7 @@ def run(ctx):
                 vals = [v for v in pr["four"] if v != "n/a"]
                 if len(set(vals)) != 1 and "v" not in state:
                     state["v"] = True
-                    ctx.violation("the ETag of %s differs between PUT answer / GET / PROPFIND / REPORT: %r" % (xh.path_str(r[1]), pr["four"]),
+                    ctx.violation("the ETag of %s differs between PUT answer / GET / PROPFIND / REPORT / GET gzip / HEAD / HEAD gzip / GET with Accept: %r" % (xh.path_str(r[1]), pr["four"]),
                                   dict(world=x_hcheck.world_json(world), history=hist[:k + 1]))
                 ctx.count("etag-read-four-ways")
             prev_dump = dump
